@@ -11,7 +11,14 @@ package main
 //   R <wlo> <whi> <alpha> <widths> <flags> <lbmatrix> <cells> <styles>   rich SoftwrapScanner
 //   P <wlo> <whi> <alpha> <widths> <flags> <cells> <nstates> <otable>    text SoftwrapScanner
 //   H <alpha> <widths> <flags> <cells> <styles>                           richtext HardwrapScanner
-//   DR/DP <w> <h> …same as R/P…                                           RichText.Draw / Text.Draw
+//   DR/DP <w> <h> …same as R/P… [<style>]                                 RichText.Draw / Text.Draw (soft wrap), Max = w x h;
+//                                                                         DP's 10th field = Text.Style (Fill is compared through the blank cells)
+//   DH <w> <h> …same as R…                                                RichText.Draw with Softwrap = false (hard wrap, ellipsis branch)
+//   DW <maxW> <nlines>                                                    Text.Draw of "a\n"*(nlines-2)+"b\nc" at Max = maxW x 65535 (F216 witness):
+//                                                                         impl = surface size + rows 0..2 only
+//
+// Surfaces: "S<w>x<h>:" then the rows, ';'-terminated, cells comma-joined: a token (style*4096 + id),
+// "_" / "_<style>" for a cell with the empty grapheme, "E<style>" for the "…" of the hard-wrap branch.
 //
 // impl result: per width, '|'-separated: "L" + lines (each line = comma-joined tokens followed by
 // ';'), or "hang" / "panic".  A token is style*4096 + alphabet id.
@@ -262,8 +269,9 @@ func buildPlain(s string, whi int) *plainCase {
 	seen := map[oKey]bool{}
 	work := []oKey{{0, -1}}
 	// OracleTermW (hypothesis of hard_break_end_to_end): a query is "fresh" when its state is the one
-	// uniseg returned for that position (the initial query, and every query reached by succession);
-	// the queries text.go makes with the old state after splitting a long word are "stale" (F116)
+	// uniseg returned for that position (every query reached by succession) or -1 (the initial query
+	// and, since the F116 fix, the query after a long-word split). A non-fresh ("stale") query is not
+	// reachable any more; should one appear it is counted and only the weak form is required of it.
 	fresh := map[oKey]bool{{0, -1}: true}
 	segInfo := map[oKey][3]int{}
 	b := []byte(s)
@@ -333,8 +341,10 @@ func buildPlain(s string, whi int) *plainCase {
 			lowest = top
 		}
 		for x := top; x >= lowest; x-- {
-			if !seen[oKey{pc.offs[x], k.st}] {
-				work = append(work, oKey{pc.offs[x], k.st})
+			// since the F116 fix the scanner stores state -1 after a split (also when nothing was consumed)
+			if !seen[oKey{pc.offs[x], -1}] {
+				work = append(work, oKey{pc.offs[x], -1})
+				fresh[oKey{pc.offs[x], -1}] = true
 			}
 		}
 	}
@@ -547,39 +557,57 @@ func (rc *richCase) runHard() string {
 
 // ---------- Draw ----------
 
-// encSurface: "S<w>x<h>:" then rows ';'-terminated, each row comma-joined tokens ('_' = empty cell).
-func encSurface(s vxfw.Surface, tok func(vaxis.Cell) int) string {
+// drawnTok: token of a drawn cell ('_' = empty grapheme, with its style when not the default: this
+// is how Fill shows; 'E' = the ellipsis written by the hard-wrap branch).
+func drawnTok(c vaxis.Cell, ids map[string]int) string {
+	st := styleId(c.Style)
+	switch c.Grapheme {
+	case "":
+		if st == 0 {
+			return "_"
+		}
+		return "_" + strconv.Itoa(st)
+	case "…":
+		return "E" + strconv.Itoa(st)
+	}
+	i, ok := ids[c.Grapheme]
+	if !ok {
+		i = 4095
+	}
+	return strconv.Itoa(st*4096 + i)
+}
+
+// encSurface: "S<w>x<h>:" then the first maxRows rows (all when maxRows < 0), ';'-terminated.
+func encSurface(s vxfw.Surface, ids map[string]int, maxRows int) string {
 	var b strings.Builder
 	fmt.Fprintf(&b, "S%dx%d:", s.Size.Width, s.Size.Height)
 	w := int(s.Size.Width)
-	for r := 0; r < int(s.Size.Height); r++ {
+	for r := 0; r < int(s.Size.Height) && (maxRows < 0 || r < maxRows); r++ {
 		for c := 0; c < w; c++ {
 			if c > 0 {
 				b.WriteByte(',')
 			}
-			cell := s.Buffer[r*w+c]
-			if cell.Grapheme == "" {
-				b.WriteByte('_')
-			} else {
-				b.WriteString(strconv.Itoa(tok(cell)))
-			}
+			b.WriteString(drawnTok(s.Buffer[r*w+c], ids))
 		}
 		b.WriteByte(';')
 	}
 	return b.String()
 }
 
+func drawCtx(w, h int) vxfw.DrawContext {
+	return vxfw.DrawContext{Max: vxfw.Size{Width: uint16(w), Height: uint16(h)}, Characters: ctxChars}
+}
+
 func (rc *richCase) runDraw(w, h int) string {
 	var out string
 	res := guarded(func() {
 		rt := richtext.New(rc.segs)
-		ctx := vxfw.DrawContext{Max: vxfw.Size{Width: uint16(w), Height: uint16(h)}, Characters: ctxChars}
-		s, err := rt.Draw(ctx)
+		s, err := rt.Draw(drawCtx(w, h))
 		if err != nil {
 			out = "error"
 			return
 		}
-		out = encSurface(s, func(c vaxis.Cell) int { return rc.tokens([]vaxis.Cell{c})[0] })
+		out = encSurface(s, rc.a.ids, -1)
 	})
 	if res != "" {
 		return res
@@ -587,27 +615,64 @@ func (rc *richCase) runDraw(w, h int) string {
 	return out + "#" + rc.runScan(w)
 }
 
-func (pc *plainCase) runDraw(w, h int) string {
+// runDrawHard: RichText.Draw with Softwrap = false.
+func (rc *richCase) runDrawHard(w, h int) string {
 	var out string
 	res := guarded(func() {
-		t := text.New(pc.s)
-		ctx := vxfw.DrawContext{Max: vxfw.Size{Width: uint16(w), Height: uint16(h)}, Characters: ctxChars}
-		s, err := t.Draw(ctx)
+		rt := richtext.New(rc.segs)
+		rt.Softwrap = false
+		s, err := rt.Draw(drawCtx(w, h))
 		if err != nil {
 			out = "error"
 			return
 		}
-		out = encSurface(s, func(c vaxis.Cell) int {
-			if i, ok := pc.a.ids[c.Grapheme]; ok {
-				return i
-			}
-			return 4095
-		})
+		out = encSurface(s, rc.a.ids, -1)
+	})
+	if res != "" {
+		return res
+	}
+	return out
+}
+
+func (pc *plainCase) runDraw(w, h, style int) string {
+	var out string
+	res := guarded(func() {
+		t := text.New(pc.s)
+		t.Style = styleOf(style)
+		s, err := t.Draw(drawCtx(w, h))
+		if err != nil {
+			out = "error"
+			return
+		}
+		out = encSurface(s, pc.a.ids, -1)
 	})
 	if res != "" {
 		return res
 	}
 	return out + "#" + pc.runScan(w)
+}
+
+// runDW: the F216 witness. nlines lines "a", …, "a", "b", "c" drawn by Text.Draw at Max = maxW x 65535;
+// with `row > Max.Height` as the row guard, row 65535 + 1 wrapped to 0 and lines 65536.. were drawn over
+// rows 0.. . Only the surface size and rows 0..2 are reported.
+func runDW(maxW, nlines int) string {
+	if nlines < 2 || nlines > 1<<20 {
+		return "bad-op"
+	}
+	var out string
+	res := guarded(func() {
+		t := text.New(strings.Repeat("a\n", nlines-2) + "b\nc")
+		s, err := t.Draw(drawCtx(maxW, 65535))
+		if err != nil {
+			out = "error"
+			return
+		}
+		out = encSurface(s, map[string]int{"a": 0, "b": 1, "c": 2}, 3)
+	})
+	if res != "" {
+		return res
+	}
+	return out
 }
 
 // ---------- generators ----------
@@ -666,7 +731,8 @@ func (st *state) emitDraw(s string, w, h int, split int, styles []int) {
 	}
 	pc := buildPlain(s, w)
 	if pc.ok {
-		r.Emit(pc.op("DP", w, h), pc.runDraw(w, h))
+		tst := (len(s) + w + h) % 4 // Text.Style: 0 (default) or one of three colours
+		r.Emit(pc.op("DP", w, h)+" "+strconv.Itoa(tst), pc.runDraw(w, h, tst))
 		r.Count("draw-plain")
 	}
 	var parts []string
@@ -691,6 +757,41 @@ func (st *state) emitHard(s string) {
 	}
 	st.r.Emit(fmt.Sprintf("H %s %s %s %s %s", al, ws, fl, joinInts(rc.ids), joinInts(rc.styles)), rc.runHard())
 	st.r.Count("hard")
+}
+
+// emitDrawHard: RichText.Draw with Softwrap = false (op DH).
+func (st *state) emitDrawHard(s string, w, h int, split int, styles []int) {
+	if hangs >= maxHangs {
+		return
+	}
+	var parts []string
+	if split > 0 && split < len(s) {
+		parts = []string{s[:split], s[split:]}
+	} else {
+		parts = []string{s}
+	}
+	rc := buildRich(parts, styles)
+	st.r.Emit(rc.op("DH", w, h), rc.runDrawHard(w, h))
+	st.r.Count("draw-hard")
+}
+
+// nLines: how many lines the rich soft-wrap scanner returns at this width (for choosing Max.Height).
+func nLines(s string, w int) int {
+	rc := buildRich([]string{s}, []int{0})
+	return strings.Count(rc.runScan(w), ";")
+}
+
+// heights: Max.Height values around the number of lines n: 0, n-1, n, n+1 and unbounded, without repeats.
+func heights(n int, extra ...int) []int {
+	seen := map[int]bool{}
+	var out []int
+	for _, h := range append([]int{0, n - 1, n, n + 1, 65535}, extra...) {
+		if h >= 0 && !seen[h] {
+			seen[h] = true
+			out = append(out, h)
+		}
+	}
+	return out
 }
 
 func textFromAlpha(al string, cells string) (string, []int, bool) {
@@ -786,8 +887,13 @@ func (st *state) rebuild(op []string) (string, string, bool) {
 	}
 	atoi := func(s string) int { v, _ := strconv.Atoi(s); return v }
 	switch op[0] {
+	case "DW":
+		if len(op) != 3 {
+			return "", "", false
+		}
+		return strings.Join(op, " "), runDW(atoi(op[1]), atoi(op[2])), true
 	case "P", "DP":
-		if len(op) != 9 {
+		if len(op) != 9 && !(op[0] == "DP" && len(op) == 10) {
 			return "", "", false
 		}
 		s, _, ok := textFromAlpha(op[3], op[6])
@@ -797,20 +903,27 @@ func (st *state) rebuild(op []string) (string, string, bool) {
 		pc := buildPlain(s, atoi(op[2]))
 		if op[0] == "DP" {
 			pc = buildPlain(s, atoi(op[1]))
-			return pc.op("DP", atoi(op[1]), atoi(op[2])), pc.runDraw(atoi(op[1]), atoi(op[2])), true
+			tst := 0
+			if len(op) == 10 {
+				tst = atoi(op[9])
+			}
+			return pc.op("DP", atoi(op[1]), atoi(op[2])) + " " + strconv.Itoa(tst), pc.runDraw(atoi(op[1]), atoi(op[2]), tst), true
 		}
 		var res []string
 		for w := atoi(op[1]); w <= atoi(op[2]); w++ {
 			res = append(res, pc.runScan(w))
 		}
 		return pc.op("P", atoi(op[1]), atoi(op[2])), strings.Join(res, "|"), true
-	case "R", "DR":
+	case "R", "DR", "DH":
 		if len(op) != 9 {
 			return "", "", false
 		}
 		rc, ok := richFromOp(op[3], op[7], op[8])
 		if !ok {
 			return "", "", false
+		}
+		if op[0] == "DH" {
+			return rc.op("DH", atoi(op[1]), atoi(op[2])), rc.runDrawHard(atoi(op[1]), atoi(op[2])), true
 		}
 		if op[0] == "DR" {
 			return rc.op("DR", atoi(op[1]), atoi(op[2])), rc.runDraw(atoi(op[1]), atoi(op[2])), true
@@ -859,6 +972,13 @@ func run(r *hx.Run) error {
 		sampleLen = []int{7, 8, 9}
 		nSample = 150000
 	}
+	maxHardDraw := 3
+	if r.Thorough {
+		maxHardDraw = 4
+	}
+	// F216 witness (also in the corpus): more lines than a uint16 row counter can hold
+	r.Emit("DW 2 65538", runDW(2, 65538))
+	r.Count("draw-rowwrap")
 	var rec func(prefix []int, n int)
 	buf := make([]byte, 0, 64)
 	mk := func(ix []int) string {
@@ -881,6 +1001,23 @@ func run(r *hx.Run) error {
 		if len(prefix) <= 3 {
 			for w := 1; w <= 4; w++ {
 				st.emitDraw(s, w, 12, split, []int{1, 2})
+				if len(prefix) <= 2 {
+					// Max.Height around the number of lines: the clipped regime
+					for _, h := range heights(nLines(s, w)) {
+						st.emitDraw(s, w, h, split, []int{1, 2})
+					}
+				}
+			}
+		}
+		if len(prefix) <= maxHardDraw {
+			nl := strings.Count(s, "\n") + 1
+			if strings.HasSuffix(s, "\n") || s == "" {
+				nl--
+			}
+			for w := 1; w <= 4; w++ {
+				for _, h := range heights(nl, 1, 2) {
+					st.emitDrawHard(s, w, h, split, []int{1, 2})
+				}
 			}
 		}
 		if n == 0 {
@@ -906,6 +1043,7 @@ func run(r *hx.Run) error {
 		if i%10 == 0 {
 			st.emitDraw(s, rng.Range(1, 6), rng.Range(0, 12), 0, []int{1})
 			st.emitHard(s)
+			st.emitDrawHard(s, rng.Range(1, 6), gen.Pick(rng, []int{0, 1, 2, 3, 12, 65535}), len(mk(ix[:rng.Intn(n+1)])), []int{rng.Intn(3), rng.Intn(3)})
 		}
 	}
 	r.Note("t-sample", time.Since(t0).String())
@@ -951,6 +1089,7 @@ func run(r *hx.Run) error {
 		if i%5 == 0 {
 			st.emitDraw(s, w, rng.Range(0, 40), split, []int{1, 2})
 			st.emitHard(s)
+			st.emitDrawHard(s, w, rng.Range(0, 40), split, []int{1, 2})
 		}
 	}
 	r.Note("t-random", time.Since(t0).String())
